@@ -168,7 +168,7 @@ def run(ctx):
 
 
 def _bfs(ctx, label):
-    return engine.bfs(ctx, _expand, [()], label=label)
+    return engine.bfs(ctx, _expand, [()], label=label, max_states=100000, cap_s=2400 if _G['ctx'].thorough else 300)
 
 
 def _merge(total, agg):
